@@ -446,6 +446,10 @@ def dimensions_from_coords(
     dimensions = []
     for coordinate in coordinates:
         coordinate = name_to_data_array(dataset, coordinate)
+        if len(coordinate.dims) == 0:
+            # A scalar coordinate, such as the time of one selected record,
+            # has no dimension
+            continue
         if len(coordinate.dims) > 1:
             raise ValueError(
                 f"Coordinate variable {coordinate.name} has more "
